@@ -11,12 +11,13 @@ Section Generic.
   (* no session of the program (whatever it reads) closes the connection it was given *)
   Inductive no_close : prog D R -> Prop :=
   | nc_done : forall r, no_close (Done r)
-  | nc_sess : forall upd k, (forall d, no_close (k d)) -> no_close (Sess false upd k).
+  | nc_sess : forall upd k, (forall d, no_close (k d)) -> no_close (Sess false upd k)
+  | nc_reopen : forall k, no_close k -> no_close (Reopen k).
 
   Lemma run_single_eq : forall p, no_close p -> forall d,
     run_single D R p d (COpen) = (fst (run_percall D R p d), COpen, snd (run_percall D R p d)).
   Proof.
-    intros p H. induction H as [r|upd k H IH]; intro d; cbn; [reflexivity|]. apply IH.
+    intros p H. induction H as [r|upd k H IH|k H IH]; intro d; cbn; [reflexivity| |]; apply IH.
   Qed.
 
   Theorem runs_single_eq : forall ps, Forall no_close ps -> forall d,
@@ -31,7 +32,7 @@ Section Generic.
   (* per-call mode never meets a closed connection *)
   Lemma run_percall_not_closed : forall p d, snd (run_percall D R p d) <> PClosed.
   Proof.
-    induction p as [r|closes upd k IH]; intro d; cbn; [discriminate|]. apply IH.
+    induction p as [r|closes upd k IH|k IH]; intro d; cbn; [discriminate| |]; apply IH.
   Qed.
 
   (* once the shared connection is closed, every operation that needs the database fails and nothing
@@ -58,7 +59,8 @@ Qed.
 
 Lemma compile_no_close : forall ct w, no_close (compile false ct w).
 Proof.
-  intros ct w. destruct w; cbn; unfold ws; try (repeat first [apply nc_done | apply nc_sess; intro]; fail).
+  intros ct w. destruct w; cbn; unfold ws;
+    try (repeat first [apply nc_done | apply nc_sess; intro | apply nc_reopen]; fail).
   - destruct hs; repeat first [apply nc_done | apply nc_sess; intro].
   - destruct hs; repeat first [apply nc_done | apply nc_sess; intro].
   - destruct (run =? src); repeat first [apply nc_done | apply nc_sess; intro].
